@@ -8,18 +8,23 @@ ANY_BETA = ("int", "float", "np.float64", "vector_const", "vector_rand")
 ANY_LAMBDA = ("float", "float", "np.float64", "matrix_const", "matrix_sym")
 
 
-def det_shard(case, r, sign=+1):
-    """A run whose determinants leave the range of a double: NW >= 27 and sensor
-    variances of 1e12 (or 1e-12)."""
-    case["data"]["N"] = 3
-    case["args"]["window_size"] = r.choice([9, 10])
+def det_shard(case, r, sign=+1, wide=False):
+    """A run whose determinants leave the range of a double: N=4, W=10 (NW=40) with sensor
+    variance 1e8 (log det about -740..-1400), or - wide - N=6, W=10 (NW=60) with sensor
+    variance 1e12 (log det about -1650: even sqrt(det) underflows)."""
+    n = 6 if wide else 4
+    case["data"]["N"] = n
+    case["args"]["window_size"] = 10
     case["args"]["num_clusters"] = 2
     case["front"] = "single"
-    case["data"]["lengths"] = [r.randint(70, 90)]
-    case["data"]["scale_exp"] = [6.0 * sign] * 3
+    case["data"]["lengths"] = [r.randint(300, 340) if wide else r.randint(250, 280)]
+    case["data"]["regimes"] = 2
+    case["data"]["sep"] = 3.0
+    case["data"]["scale_exp"] = [(6.0 if wide else 4.0) * sign] * n
+    case["data"].pop("layout", None)
     for k in ("const_sensor", "dup_rows", "dtype", "shift"):
         case["data"].pop(k, None)
-    case["args"]["iteration_limit"] = 2
+    case["args"]["iteration_limit"] = 1 if wide else 2
     case["args"]["min_cluster_size"] = 20
     case["args"]["sparsity_weight"] = dict(form="float", value=0.0, seed=0)
     case["args"]["label_switching_cost"] = dict(form="int", value=5, seed=0)
@@ -40,8 +45,11 @@ class C03(TracedProp):
                   "rows, clusters smaller than NW. Non-trivial: at least one optimise phase completed.")
 
     def tweak(self, case, r, tier):
-        if r.random() < (0.02 if tier == "quick" else 0.01):
-            det_shard(case, r, r.choice([+1, -1]))
+        u = r.random()
+        if u < (0.02 if tier == "quick" else 0.01):
+            det_shard(case, r, r.choice([+1, +1, -1]))
+        elif u < (0.045 if tier == "quick" else 0.015):
+            det_shard(case, r, +1, wide=True)
         return case
 
     def is_nontrivial(self, out):
@@ -61,7 +69,7 @@ class C04(TracedProp):
 class C05(TracedProp):
     id = "C05"
     profile = dict(extreme_scale_p=0.3, scale_exp_range=(-3, 3), big_nw_p=0.12, N=(1, 4), W=(1, 6),
-                   lambda_forms=ANY_LAMBDA)
+                   lambda_forms=ANY_LAMBDA, mmc_values=(0, 0, 0, 1e-3, 1e-2, 0.05, 0.12, 0.3))
     oracle = staticmethod(oracles.c05)
     counts = dict(quick=560, thorough=30000)
     extra_rule = ("C05: every likelihood table of every round and every per-point / aggregate likelihood of the result is "
@@ -70,8 +78,11 @@ class C05(TracedProp):
                   "(NW=27..30, sensor variance 1e12 or 1e-12) where the value must still be finite.")
 
     def tweak(self, case, r, tier):
-        if r.random() < (0.04 if tier == "quick" else 0.02):
-            det_shard(case, r, r.choice([+1, -1]))
+        u = r.random()
+        if u < (0.03 if tier == "quick" else 0.015):
+            det_shard(case, r, r.choice([+1, +1, -1]))
+        elif u < (0.06 if tier == "quick" else 0.02):
+            det_shard(case, r, +1, wide=True)
         return case
 
     def is_nontrivial(self, out):
@@ -103,6 +114,36 @@ class C07(TracedProp):
     def is_nontrivial(self, out):
         return out.ok and len(out.case["data"]["lengths"]) > 1
 
+    def tweak(self, case, r, tier):
+        if r.random() < 0.2:
+            case["data"]["lengths"] = case["data"]["lengths"][:1]
+        return case
+
+    def judge(self, out, rec):
+        found = super().judge(out, rec)
+        if len(out.case["data"]["lengths"]) == 1:
+            # joint labelling of a single series must give the same result as the single-series front end
+            from .. import runner
+            import numpy as np
+            c = workload.clone(out.case)
+            c["front"] = "single"
+            c["pool"]["choices"] = None
+            so = runner.execute(c, record=False)
+            rec.probe("joint_of_one_vs_single_pairs")
+            if so.ok != out.ok:
+                found.append(("C07:joint_of_one_differs",
+                              f"single series: ticc_labels {'completes' if so.ok else 'raises ' + so.exc[0]} but "
+                              f"ticc_joint_labels {'completes' if out.ok else 'raises ' + out.exc[0] + ': ' + out.exc[1][:120]}"))
+            elif so.ok:
+                fa, fb = dict(so.fields), dict(out.fields)
+                la, lb = fa.pop("point_labels"), fb.pop("point_labels")
+                from ..core import digest
+                if lb != [la] or digest(fa) != digest(fb):
+                    diff = [k for k in fa if digest(fa[k]) != digest(fb.get(k))]
+                    found.append(("C07:joint_of_one_differs", f"joint labelling of a single series differs from the "
+                                                              f"single-series front end in {diff or ['point_labels']}"))
+        return found
+
 
 class C09(TracedProp):
     id = "C09"
@@ -130,7 +171,7 @@ class C12(TracedProp):
 class C16(TracedProp):
     id = "C16"
     profile = dict(extreme_scale_p=0.3, scale_exp_range=(-4, 4), beta_values=(0, 0, 0.5, 2, 5, 20, 200, 1e5),
-                   limits=(1, 2, 3, 5, 50))
+                   limits=(1, 2, 3, 5, 50), mmc_values=(0, 0, 0, 1e-3, 1e-2, 0.05, 0.15))
     oracle = staticmethod(oracles.c16)
     counts = dict(quick=720, thorough=40000)
     extra_rule = ("C16: BIC recomputed from the recorded final model: P*ln(T) - 2*sum(logdet - trace), P summed over "
@@ -138,8 +179,11 @@ class C16(TracedProp):
                   "included).")
 
     def tweak(self, case, r, tier):
-        if r.random() < (0.03 if tier == "quick" else 0.015):
-            det_shard(case, r, r.choice([+1, -1]))
+        u = r.random()
+        if u < (0.03 if tier == "quick" else 0.015):
+            det_shard(case, r, r.choice([+1, +1, -1]))
+        elif u < (0.055 if tier == "quick" else 0.02):
+            det_shard(case, r, +1, wide=True)
         return case
 
 
